@@ -253,6 +253,9 @@ func (e *Engine) bindContracts() error {
 			continue
 		}
 		e.loopsOf[f] = cs
+		for _, lc := range cs {
+			lc.Parent = e.specs.Funcs[key]
+		}
 	}
 	for key, cs := range e.specs.Closures {
 		i := strings.Index(key, "::")
